@@ -1009,4 +1009,124 @@ theorem structSpec_of_all {β : Type} {de : List Nat → Ty → β → Except Er
     intro h
     simp only [structSpec, h f (List.mem_cons_self ..), ih (fun x hx => h x (List.mem_cons_of_mem _ hx)), List.map_cons]
 
+
+/-! ### form_urlencoded: serialise then parse -/
+
+theorem hexUpper_not_sep : ∀ n, n < 16 → hexUpper n ≠ 38 ∧ hexUpper n ≠ 61 := by decide
+
+theorem byteSerialize_no_sep (bs : List Nat) (hb : ∀ b ∈ bs, b < 256) :
+    38 ∉ byteSerialize bs ∧ 61 ∉ byteSerialize bs := by
+  induction bs with
+  | nil => simp [byteSerialize]
+  | cons b bs ih =>
+    have hlt : b < 256 := hb b (List.mem_cons_self ..)
+    have ih' := ih (fun x hx => hb x (List.mem_cons_of_mem _ hx))
+    have h1 : b / 16 < 16 := by omega
+    have h2 : b % 16 < 16 := by omega
+    simp only [byteSerialize, List.mem_append, not_or]
+    by_cases hu : formUnchanged b = true
+    · have := formUnchanged_ne hu
+      simp only [hu, if_true, List.mem_cons, List.mem_nil_iff, or_false]
+      exact ⟨⟨fun e => this.2.2.1 e.symm, ih'.1⟩, ⟨fun e => this.2.2.2 e.symm, ih'.2⟩⟩
+    · by_cases hs : b = 32
+      · simp only [hu, hs, Bool.false_eq_true, if_false, if_true, List.mem_cons, List.mem_nil_iff, or_false]
+        exact ⟨⟨by decide, ih'.1⟩, ⟨by decide, ih'.2⟩⟩
+      · simp only [hu, hs, Bool.false_eq_true, if_false, percentEncodeByte, List.mem_cons, List.mem_nil_iff, or_false, not_or]
+        have e1 := hexUpper_not_sep _ h1
+        have e2 := hexUpper_not_sep _ h2
+        exact ⟨⟨⟨by decide, fun e => e1.1 e.symm, fun e => e2.1 e.symm⟩, ih'.1⟩,
+               ⟨⟨by decide, fun e => e1.2 e.symm, fun e => e2.2 e.symm⟩, ih'.2⟩⟩
+
+theorem splitOn_ne_nil (sep : Nat) (bs : List Nat) : splitOn sep bs ≠ [] := by
+  induction bs with
+  | nil => simp [splitOn]
+  | cons b bs ih =>
+    simp only [splitOn]
+    split
+    · simp
+    · split <;> simp
+
+theorem splitOn_no_sep {sep : Nat} {a : List Nat} (h : sep ∉ a) : splitOn sep a = [a] := by
+  induction a with
+  | nil => simp [splitOn]
+  | cons b a ih =>
+    simp only [List.mem_cons, not_or] at h
+    simp only [splitOn, ih h.2]
+    rw [if_neg (fun e => h.1 e.symm)]
+
+theorem splitOn_append_sep {sep : Nat} {a : List Nat} (rest : List Nat) (h : sep ∉ a) :
+    splitOn sep (a ++ sep :: rest) = a :: splitOn sep rest := by
+  induction a with
+  | nil =>
+    simp only [List.nil_append, splitOn]
+    cases hs : splitOn sep rest with
+    | nil => exact absurd hs (splitOn_ne_nil sep rest)
+    | cons p ps => simp
+  | cons b a ih =>
+    simp only [List.mem_cons, not_or] at h
+    simp only [List.cons_append, splitOn, ih h.2]
+    rw [if_neg (fun e => h.1 e.symm)]
+
+theorem splitFirst_append {sep : Nat} {a : List Nat} (b : List Nat) (h : sep ∉ a) :
+    splitFirst sep (a ++ sep :: b) = (a, b) := by
+  induction a with
+  | nil => simp [splitFirst]
+  | cons x a ih =>
+    simp only [List.mem_cons, not_or] at h
+    simp only [List.cons_append, splitFirst]
+    rw [if_neg (fun e => h.1 e.symm), ih h.2]
+
+/-- One serialised pair: `name=value`. -/
+def pairPiece (kv : List Nat × List Nat) : List Nat := byteSerialize kv.1 ++ 61 :: byteSerialize kv.2
+
+theorem formSerialize_cons (kv : List Nat × List Nat) (rest : List (List Nat × List Nat)) :
+    formSerialize (kv :: rest) =
+      match rest with
+      | [] => pairPiece kv
+      | _ :: _ => pairPiece kv ++ 38 :: formSerialize rest := by
+  cases rest with
+  | nil => simp [formSerialize, pairPiece]
+  | cons kv' rest' => simp [formSerialize, pairPiece, List.append_assoc]
+
+theorem pairPiece_props (kv : List Nat × List Nat)
+    (hb : (∀ b ∈ kv.1, b < 256) ∧ (∀ b ∈ kv.2, b < 256)) :
+    38 ∉ pairPiece kv ∧ pairPiece kv ≠ [] ∧ splitFirst 61 (pairPiece kv) = (byteSerialize kv.1, byteSerialize kv.2) := by
+  have h1 := byteSerialize_no_sep kv.1 hb.1
+  have h2 := byteSerialize_no_sep kv.2 hb.2
+  refine ⟨?_, ?_, ?_⟩
+  · simp only [pairPiece, List.mem_append, List.mem_cons, not_or]
+    exact ⟨h1.1, by decide, h2.1⟩
+  · simp [pairPiece]
+  · exact splitFirst_append _ h1.2
+
+theorem formPairsRaw_formSerialize : ∀ (pairs : List (List Nat × List Nat)),
+    (∀ kv ∈ pairs, (∀ b ∈ kv.1, b < 256) ∧ (∀ b ∈ kv.2, b < 256)) →
+    formPairsRaw (formSerialize pairs) = pairs.map (fun kv => (byteSerialize kv.1, byteSerialize kv.2)) := by
+  intro pairs
+  induction pairs with
+  | nil => intro _; simp [formPairsRaw, formSerialize, splitOn]
+  | cons kv rest ih =>
+    intro hb
+    obtain ⟨p1, p2, p3⟩ := pairPiece_props kv (hb kv (List.mem_cons_self ..))
+    have ih' := ih (fun x hx => hb x (List.mem_cons_of_mem _ hx))
+    rw [formSerialize_cons]
+    cases rest with
+    | nil =>
+      simp only [formPairsRaw, splitOn_no_sep p1, List.map_cons, List.map_nil]
+      have : (pairPiece kv).isEmpty = false := by
+        cases h : pairPiece kv with
+        | nil => exact absurd h p2
+        | cons _ _ => rfl
+      simp [List.filter, this, p3]
+    | cons kv' rest' =>
+      simp only [formPairsRaw] at ih' ⊢
+      rw [splitOn_append_sep _ p1]
+      have : (pairPiece kv).isEmpty = false := by
+        cases h : pairPiece kv with
+        | nil => exact absurd h p2
+        | cons _ _ => rfl
+      simp only [List.filter_cons, this, Bool.not_false, if_true, List.map_cons, p3]
+      rw [ih']
+      rfl
+
 end Pxv.ReqData
